@@ -684,7 +684,43 @@ class Emitter:
             else:
                 fty = M.decls[n]; fs = (self.kind(fty.ret), tuple(self.kind(t) for t in fty.args))
             if fs == sig and n not in out: out.append(n)
+        # class-hierarchy pruning: a virtual call through a T* can only reach member functions of classes that contain a T
+        # subobject (T itself, or T as a direct / indirect base = by-value field, at any offset for thunks)
+        if ins.args:
+            st = self.rs(ins.args[0][0])
+            if isinstance(st, PtrTy) and isinstance(st.to, NamedTy) and M.types.get(st.to.name) is not None:
+                keep = []
+                for n in out:
+                    if n in M.funcs and M.funcs[n].params:
+                        ct = self.rs(M.funcs[n].params[0][0])
+                        if isinstance(ct, PtrTy) and isinstance(ct.to, NamedTy) and M.types.get(ct.to.name) is not None:
+                            if not self.contains_type(ct.to.name, st.to.name):
+                                continue
+                    keep.append(n)
+                out = keep
         return out
+
+    def contains_type(self, outer, inner, depth=0):
+        """struct `outer` is `inner` or holds an `inner` by value (recursively)"""
+        if outer == inner: return True
+        key = (outer, inner)
+        cache = self.__dict__.setdefault('_ct_cache', {})
+        if key in cache: return cache[key]
+        cache[key] = False
+        t = self.M.types.get(outer)
+        res = False
+        def walk(t):
+            if isinstance(t, NamedTy):
+                return self.contains_type(t.name, inner, depth + 1)
+            if isinstance(t, StructTy):
+                return any(walk(f) for f in t.fields)
+            if isinstance(t, ArrTy):
+                return walk(t.el)
+            return False
+        if t is not None and depth < 12:
+            res = walk(t)
+        cache[key] = res
+        return res
 
     def scan_addr_taken(self):
         M = self.M
